@@ -465,6 +465,41 @@ def extract(repo):
                        ('lsmtkDefaultL0StallBytes', 'l0_write_stall_threshold_bytes')]:
         grab(key, lambda field=field: lsmtk_default(field))
     grab('lsmtkNumLevels', lambda: eval_int(const_int(read(repo, 'lsmtk/src/tree/mod.rs'), 'NUM_LEVELS')))
+    # C05, structure rather than constants: WHERE garbage collection is reached (1 = as modelled by
+    # Blue.GcLastLevel.performKind; a pattern that is not found at all leaves the constant ABSENT)
+    def lsmtk_tree_src():
+        return re.sub(r'\s+', ' ', re.sub(r'//[^\n]*', '', read(repo, 'lsmtk/src/tree/mod.rs')))
+    def top_level_is_last_level():
+        # Compaction::top_level is `self.core.upper_level == NUM_LEVELS - 1`, and there is one such fn
+        s = lsmtk_tree_src()
+        defs = re.findall(r'\bfn top_level ?\( ?&self ?\) ?-> ?bool ?\{([^{}]*)\}', s)
+        if len(defs) != 1 or len(re.findall(r'\bfn top_level\b', s)) != 1:
+            raise Missing('Compaction::top_level (exactly one definition)')
+        return 1 if re.fullmatch(r' ?self ?\. ?core ?\. ?upper_level ?== ?NUM_LEVELS ?- ?1 ?', defs[0]) else 0
+    def gc_only_at_top_level():
+        # perform_compaction: first the one-input route to apply_moving_compaction, then
+        # `if compaction.top_level() { return self.perform_garbage_collection(compaction); }`, and
+        # that is the only place in the crate where perform_garbage_collection is named besides its definition
+        s = lsmtk_tree_src()
+        if not re.search(r'\bfn perform_garbage_collection ?\(', s):
+            raise Missing('Tree::perform_garbage_collection')
+        m = re.search(r'\bfn perform_compaction ?\( ?&self, compaction: Compaction ?\) ?-> ?Result<\(\), SError> ?\{ ?(.*?)\bfn [a-z_]+ ?\(', s)
+        if not m:
+            raise Missing('Tree::perform_compaction')
+        named = 0
+        root = os.path.join(repo, 'lsmtk', 'src')
+        for d, _, fs in os.walk(root):
+            for f in fs:
+                if f.endswith('.rs'):
+                    t = re.sub(r'//[^\n]*', '', open(os.path.join(d, f), encoding='utf-8').read())
+                    named += len(re.findall(r'\bperform_garbage_collection\b', t))
+        head = (r'(?:[A-Z_]+\.click\(\); )?'
+                r'if compaction\.inputs\(\)\.count\(\) == 1 \{ let input = compaction\.inputs\(\)\.next\(\)\.unwrap\(\); '
+                r'return self\.apply_moving_compaction\(compaction, input\); \} '
+                r'if compaction\.top_level\(\) \{ return self\.perform_garbage_collection\(compaction\); \} ')
+        return 1 if named == 2 and re.match(head, m.group(1)) else 0
+    grab('lsmtkTopLevelIsLastLevel', top_level_is_last_level)
+    grab('lsmtkGcOnlyAtTopLevel', gc_only_at_top_level)
     # lsmtk selector (C01): the floating-point expressions of next_compaction, whitespace-normalised
     # (the model computes them in integer arithmetic from tables; an edit to an expression breaks the tie)
     def lsmtk_selector_expr(pattern, what):
